@@ -494,8 +494,17 @@ class Run:
         budget = nfr * 2 * s.timeout_us + nfr * int(plan_knob(s, "slow_us")) + slept + 1_000_000
         if dt > budget and not extra_fault:
             self.violation("unbounded-time", spec.name, f"{where}: took {dt} us of simulated time, budget {budget}")
+        if listed_fault or extra_fault:
+            self.any_fault_so_far = True
         if core.max_payload_seen > core.max_packet:
-            self.violation("packet-too-large", spec.name, f"{where}: a data packet of {core.max_payload_seen} bytes exceeds the negotiated {core.max_packet}")
+            # after a fault on the packet-size query the host legally falls back to the protocol's default and minimum of
+            # 32 bytes; a device announcing less than 32 (outside the protocol, generated for the fault-free half of the
+            # quantifier) then sees larger packets: not judged
+            fell_back = core.max_packet < 32 and s.mb.max_packet_size == 32 and getattr(self, "any_fault_so_far", False)
+            if not fell_back:
+                self.violation("packet-too-large", spec.name, f"{where}: a data packet of {core.max_payload_seen} bytes exceeds the negotiated {core.max_packet}")
+            else:
+                self.probe("fallback_to_default_packet_size_on_small_device")
             core.max_payload_seen = 0
 
         success = outcome[0] == "ret" and status_code == 0 and outcome[1] is not None and outcome[1] is not False
@@ -581,6 +590,9 @@ class Run:
         if exp_hist is not None and all_ok:
             if [h[:-1] for h in hist] != [tuple(e) for e in exp_hist]:
                 self.violation(oracle, spec.name + ":effect", f"{where}: device executed {_short(hist)}, expected {_short(exp_hist)}")
+        elif exp_hist and hist and hist[0][0] == exp_hist[0][0] and tuple(hist[0][:-1]) != tuple(exp_hist[0]):
+            # the device answered with an error status: it must still have been asked what the caller asked for
+            self.violation(oracle, spec.name + ":effect", f"{where}: device was asked {_short(hist[:1])}, the call was {_short(exp_hist[:1])}")
         if not spec.skip_status_mirror and statuses and status_code != statuses[-1]:
             self.violation(oracle, spec.name + ":status", f"{where}: status_code {status_code} but the device's last status word was {statuses[-1]}")
         kind = spec.expect_ret[0]
@@ -795,9 +807,9 @@ def gen_op(rng: random.Random, mp: int, transport: str, cap: int) -> dict:
     elif name == "flash_erase_region":
         o.update(addr=addr, len=rng.choice([0x100, 0x1000, rng.randint(1, 0x2000)]))
     elif name == "get_property":
-        o.update(tag=rng.choice([1, 2, 3, 4, 5, 7, 10, 11, 12, 14, 15, 17, 18, 22, 6, 25]), index=rng.choice([0, 0, 1]))
+        o.update(tag=rng.choice([1, 2, 3, 4, 5, 7, 10, 11, 12, 14, 15, 17, 18, 22, 6, 25, 0x40, 0xC8, 0x23, 0xFE]), index=rng.choice([0, 0, 1]))
     elif name == "set_property":
-        o.update(tag=rng.choice([10, 22, 22, 1, 30]), value=rng.choice([0, 1, rng.randrange(1 << 32)]))
+        o.update(tag=rng.choice([10, 22, 22, 1, 30, 0x40, 0x40, 0xC8, 0x77]), value=rng.choice([0, 1, rng.randrange(1 << 32)]))
     elif name in ("execute",):
         o.update(addr=addr & ~3, arg=rng.randrange(1 << 32), sp=rng.choice([0, RAM + 0x8000]))
     elif name == "call":
@@ -880,7 +892,7 @@ def gen_plan(family: str, i: int, rng: random.Random, tier: str) -> dict:
 
         return sdpsim.gen_plan(family, i, rng, tier)
     transport = rng.choice(["uart", "hid"])
-    mp = rng.choice([32, 32, 56, 64, 128, 256, 512, 1016]) if transport == "hid" else rng.choice([32, 32, 64, 128, 256, 512, 1024])
+    mp = rng.choice([32, 32, 56, 64, 128, 256, 512, 1016, 16, 24]) if transport == "hid" else rng.choice([32, 32, 64, 128, 256, 512, 1024, 8, 16, 24])
     timeout_ms = rng.choice([100, 500, 2000, 5000])
     knobs = {
         "timeout_ms": timeout_ms,
